@@ -83,6 +83,20 @@ def generate(rng, tier, cls):
                 faults.append({'kind': 'skew', 'file': 'f1', 'section': i,
                                'key': key, 'value': v, 'pos': rng.below(6)})
 
+    if rng.chance(0.12) and recs[0] is not None:
+        # the same unknown option(s) on every change / file header (header
+        # lines that are byte for byte alike)
+        kv = [(rng.choice(gen.UNKNOWN_KEYS), rng.choice(gen.UNKNOWN_VALUES))
+              for _ in range(rng.randint(1, 2))]
+        kind_ = rng.choice(['file', 'change'])
+
+        for j in range(n):
+            if recs[j]['type'] == kind_:
+                for key, v in kv:
+                    faults.append({'kind': 'skew', 'file': 'f1',
+                                   'section': j, 'key': key, 'value': v,
+                                   'pos': 0})
+
     if rng.chance(0.02):
         # hundreds of (short) unknown options on one header
         i = rng.below(n)
